@@ -829,7 +829,7 @@ func cmdRun(args []string) int {
 			"workers":             nw,
 			"tree_hash":           th,
 			"components_real":     "go-upf internal/pfcp, internal/forwarder (gtp5g driver, buffnetlink, perio), internal/report, internal/gtpv1, pkg/factory types; go-pfcp; go-gtp5gnl; go-genl; go-rtnllink; go-rtnlroute; go-nl attr/msg/request/client; Go runtime timers, channels, scheduler (testing/synctest bubble)",
-			"components_simulated": "N4 and GTP-U UDP sockets, netlink sockets and mux loop (go-nl conn/mux/syscall replaced), gtp5g kernel module (simkernel), OS link device ioctls, SMFs, gNB, clock, Go map iteration order, process exit hook",
+			"components_simulated": "N4 and GTP-U UDP sockets, netlink sockets and mux loop (go-nl conn/mux/syscall replaced), gtp5g kernel module (simkernel), OS link device ioctls, name resolution (net.Resolve*), SMFs, gNB, detached report producers, clock, Go map iteration order, ready-case choice of receive-only selects, process exit hook",
 			"components_not_run":  "cmd/main.go, pkg/app signal handling, pkg/factory file loading",
 		},
 		"assumptions": assumptions(prop),
